@@ -1801,6 +1801,10 @@ class Interp:
 
         @reg("all")
         def _all(I, a, k):
+            from .absdom import BoolFamily
+
+            if isinstance(a[0], BoolFamily):
+                return a[0].forall
             for v in I.iter_values(a[0]):
                 if not I.truthy(v, "all()"):
                     return False
@@ -1808,6 +1812,10 @@ class Interp:
 
         @reg("any")
         def _any(I, a, k):
+            from .absdom import BoolFamily
+
+            if isinstance(a[0], BoolFamily):
+                return a[0].exists
             for v in I.iter_values(a[0]):
                 if I.truthy(v, "any()"):
                     return True
